@@ -450,7 +450,60 @@ def check_rejected_requests(chk):
                              {"clause": "checkpoint", "rejected": True})
 
 
+def check_decorator_form(chk):
+    """the decorator form `@aspire.auto_checkpoint(path, ...)` (every `contextlib` context manager is a decorator too): the decorated
+    function is entered again while it is running (it calls itself, or a helper it calls is decorated with the same manager) - nesting of
+    the context at any depth; the innermost body ends normally or raises.  Each level sees the manager's defaults; after the outermost
+    call the instance's defaults are exactly what they were on entry."""
+    for depth_ in (1, 2, 3, 4):
+        for raises in (False, True):
+            for outer in (None, (2, 9, True, True)):
+                for touch in (False, True):
+                    case = {"level": "decorator_form", "depth": depth_, "raises": raises, "initial_defaults": outer, "touch": touch}
+                    chk.count("decorator_form")
+                    chk.case(case if chk.evaluations < 40 else None, json.dumps(case))
+                    a = make_instance()
+                    if outer is not None:
+                        a._checkpoint_defaults = {"path": path_name(outer[0]), "every": outer[1], "save_config": outer[2], "save_flow": outer[3],
+                                                  "saved_config": False, "saved_flow": False}
+                    had, d0 = hasattr(a, "_checkpoint_defaults"), getattr(a, "_checkpoint_defaults", None)
+                    d0_copy = copy.deepcopy(d0)
+                    seen = []
+                    try:
+                        deco = a.auto_checkpoint(path_name(1), every=3, save_config=True, save_flow=False)
+
+                        @deco
+                        def stage(k):
+                            d = getattr(a, "_checkpoint_defaults", None)
+                            seen.append(None if d is None else (d["path"], d["every"], d["saved_config"]))
+                            if touch and d is not None:
+                                d["saved_config"] = True
+                            if k > 1:
+                                stage(k - 1)
+                            elif raises:
+                                raise Boom()
+                            seen.append(("after", None if getattr(a, "_checkpoint_defaults", None) is None else a._checkpoint_defaults["path"]))
+
+                        try:
+                            stage(depth_)
+                        except Boom:
+                            pass
+                    except Exception as e:   # noqa
+                        chk.fail("checkpoint defaults restored on leaving the auto-checkpoint context", case, f"the decorator form raised {e!r}", {"clause": "checkpoint", "decorator": True})
+                        continue
+                    now_has, d1 = hasattr(a, "_checkpoint_defaults"), getattr(a, "_checkpoint_defaults", None)
+                    if now_has != had or d1 is not d0 or d1 != d0_copy:
+                        chk.fail("checkpoint defaults restored on leaving the auto-checkpoint context", case,
+                                 f"after the outermost call of a function decorated with auto_checkpoint (entered {depth_} deep{', innermost body raised' if raises else ''}) the "
+                                 f"defaults are {d1}, on entry they were {d0_copy}", {"clause": "checkpoint", "decorator": True})
+                    entered = [s_ for s_ in seen if s_ is None or s_[0] != "after"]
+                    if any(s_ is None or s_[0] != path_name(1) or s_[1] != 3 or s_[2] is not False for s_ in entered) or len(entered) != depth_:
+                        chk.fail("checkpoint defaults restored on leaving the auto-checkpoint context", case,
+                                 f"inside the decorated function the defaults seen at entry of each level were {entered}", {"clause": "checkpoint", "decorator": True, "inside": True})
+
+
 def run(chk: core.Check):
+    check_decorator_form(chk)
     check_shutdown_faults(chk)
     check_rejected_requests(chk)
     r = np.random.default_rng(chk.seed + 19019)
@@ -501,6 +554,10 @@ def replay(chk: core.Check, path: str) -> int:
     doc = json.loads(open(path).read())
     p = doc["payload"]
     cases = [p["case"]] if "case" in p else [d["case"] for d in p.get("correspondence", [])]
+    fixed = {"decorator_form": check_decorator_form, "rejected_request": check_rejected_requests}
+    for lv in sorted({c.get("level") for c in cases if c.get("level") in fixed}):
+        fixed[lv](chk)           # the fixed scenario family is run again in full
+    cases = [c for c in cases if c.get("level") not in fixed]
     check_progs(chk, [(parse_wire(c["prog"].split()), tuple(c["initial_defaults"]) if c.get("initial_defaults") else None, c.get("variant"))
                       for c in cases])
     for f in chk.failures[:10]:
